@@ -272,7 +272,7 @@ Start == pc = "idle" /\ \E s \in Scenarios : Begin(s)
 Next == Start \/ Step
 
 Spec == Init /\ [][Next]_vars
-FairSpec == Spec /\ WF_vars(Step)
+FairSpec == Spec /\ WF_vars(Next)
 
 -----------------------------------------------------------------------------
 (* Ground truth a scenario carries (used by the properties, not by the run) *)
@@ -310,11 +310,14 @@ Linked == \A i \in DOMAIN delivered : i > 1 => sc.facts[delivered[i][2]].prev = 
 
 \* C09 ------------------------------------------------------------------
 \* the run succeeds iff every block of the range is consistent; otherwise it stops at the first bad height
+\* sc.indexed = height -> id of the index record of the active chain (the hash the index knows the block by);
+\* sc.active = height -> id of what is actually stored there (differs from it when the stored block was altered)
+Indexed(h) == IF "indexed" \in DOMAIN sc THEN sc.indexed[h] ELSE sc.active[h]
 ConsistentAt(h) == h \in DOMAIN sc.active /\
                    LET b == sc.active[h] IN
                      /\ sc.facts[b].merkleOk
                      /\ (h = 0 => b = sc.genesis)
-                     /\ (h > 0 => (h - 1) \in DOMAIN sc.active /\ sc.facts[b].prev = sc.active[h - 1])
+                     /\ (h > 0 => (h - 1) \in DOMAIN sc.active /\ sc.facts[b].prev = Indexed(h - 1))
 BadHeights == {h \in ExpectedHeights : ~ConsistentAt(h)}
 VerifyIff == (Done /\ sc.verify /\ exit # 137) =>
                /\ (exit = 0 <=> BadHeights = {})
@@ -327,7 +330,7 @@ FinalNeverPartial == \A n \in DOMAIN fin : Complete(fin[n])
 ExitZeroComplete == (Done /\ exit = 0) =>
                        /\ \A f \in OutFiles(sc.cb) : FinalName(f) \in DOMAIN fin /\ Complete(f)
                        /\ Cardinality(DOMAIN fin) = Cardinality(OutFiles(sc.cb))
-FailureLeavesNone == (Done /\ exit # 0) => fin = <<>>
+FailureLeavesNone == (Done /\ exit = 1) => fin = <<>>      \* (a kill may fall between two renames: those finals are complete)
 \* an unreadable block of the range is reported with its height
 ReadFaultReported == (Done /\ exit = 1 /\ errH # NONE) => errH \in ExpectedHeights
 
